@@ -65,6 +65,13 @@ def sf_strip_of(ex, st, v): return Sym(STR, ex.absfun_s("str_strip", [z3.StringS
 def sf_all_space(ex, st, v):
     i = z3.Int("i!sp"); z = lift(v).z
     return Sym(BOOL, z3.ForAll([i], z3.Implies(z3.And(i >= 0, i < z3.Length(z)), is_space(z3.SubString(z, i, 1)))))
+def sf_only_spaces(ex, st, v):
+    i = z3.Int("i!os"); z = lift(v).z
+    return Sym(BOOL, z3.ForAll([i], z3.Implies(z3.And(i >= 0, i < z3.Length(z)), z3.SubString(z, i, 1) == z3.StringVal(" "))))
+def strip_blank_axiom(ex, st):
+    """A-STR (audited): v.strip(' ') == '' iff every character of v is U+0020"""
+    v = G(st, "value"); sp = ex.absfun_s("str_strip2", [z3.StringSort()] * 2, z3.StringSort())(v, z3.StringVal(" ")); i = z3.Int("i!ax2")
+    return Sym(BOOL, z3.And(is_space(z3.StringVal(" ")), (sp == z3.StringVal("")) == z3.ForAll([i], z3.Implies(z3.And(i >= 0, i < z3.Length(v)), z3.SubString(v, i, 1) == z3.StringVal(" ")))))
 def sf_bad_char(ex, st, v): return Sym(BOOL, bad_char_z(lift(v).z))
 def sf_vv_accepts(ex, st, v): return Sym(BOOL, ex.absfun_s("vv_accepts", [z3.StringSort()], z3.BoolSort())(lift(v).z))
 def sf_vv_native(ex, st, v): return Sym(NATIVE, ex.absfun_s("vv_native", [z3.StringSort()], sort_of(NATIVE))(lift(v).z))
@@ -83,17 +90,21 @@ def validated_contract(fixed):
         if fixed: return Sym(BOOL, z3.Length(z) <= G(st, "width"))
         return Sym(BOOL, ex.absfun_s("length_in_range", [z3.IntSort()], z3.BoolSort())(z3.Length(z)))
     BLANK = "all_space(value)" if fixed else "value == ''"
+    # pure padding: in fixed data a cell of U+0020 only. Such a cell is the empty cell under every reading of "blanks"; its characters are not looked at.
+    # A cell that str.strip() empties but that holds another white-space character (a tab) is empty for the code, yet that character is still held against
+    # the allowed characters - the readings of "blank" differ there, and the behaviour the code always had is kept (see DESIGN 8.13 / 8.14)
+    PAD = "only_spaces(value)" if fixed else "value == ''"
     EFF = "strip_of(value)" if fixed else "value"
     # the statement's emptiness clause speaks of fixed-width *data*: cells no longer than the declared width (what the reader delivers)
     WITHIN = "len(value) <= width" if fixed else "True"
     c = Contract("fields.AbstractFieldFormat.validated", setup_validated(fixed),
-        requires=[strip_axiom],
-        returns=[Clause("implies(not (%s), not bad_char(value))" % BLANK, "accepted-non-empty-cells-contain-only-allowed-characters", props=["C03", "C20"]),
+        requires=[strip_axiom, strip_blank_axiom],
+        returns=[Clause("implies(not (%s), not bad_char(value))" % PAD, "accepted-cells-contain-only-allowed-characters-(the-padding-blanks-of-an-empty-fixed-cell-aside)", props=["C03", "C20"]),
                  Clause("implies(%s, allowed_empty and result == EMPTY() and vv_calls == 0)" % BLANK, "empty-cell-accepted-only-if-allowed-yields-empty-value-rule-not-consulted", props=["C03", "C20"]),
                  Clause("implies(not (%s), length_ok(value) and vv_calls == 1 and vv_arg == %s and vv_accepts(%s) and result == vv_native(%s))" % (BLANK, EFF, EFF, EFF),
                         "non-empty-cell-accepted-only-inside-length-and-by-the-rule-called-once-with-the-stripped-value", props=["C03", "C20", "C02"])],
         raises={"FieldValueError": [
-            Clause("(not (%s) and bad_char(value)) or ((%s) and not allowed_empty) or (not (%s) and (not length_ok(value) or not vv_accepts(%s))) or not (%s)" % (BLANK, BLANK, BLANK, EFF, WITHIN),
+            Clause("(not (%s) and bad_char(value)) or ((%s) and not allowed_empty) or (not (%s) and (not length_ok(value) or not vv_accepts(%s))) or not (%s)" % (PAD, BLANK, BLANK, EFF, WITHIN),
                    "rejected-only-for-a-disallowed-character-a-forbidden-empty-cell-a-bad-length-or-the-rule", props=["C03", "C20"]),
             Clause("implies(bad_char(value), vv_calls == 0)", "rule-not-consulted-for-cells-with-disallowed-characters", props=["C03", "C20"]),
             Clause("implies(not bad_char(value) and not (%s) and not length_ok(value), vv_calls == 0)" % BLANK, "rule-not-consulted-for-cells-of-wrong-length", props=["C03", "C20"])]},
@@ -162,10 +173,11 @@ class ValidatedOracle(Oracle):
                 return d.is_finite() and 0 <= d <= 999
             try: return 0 <= int(v) <= 999
             except ValueError: return False
-        if blank:           # the statement decides the empty cell first: accepted iff allowed to be empty, whatever the allowed characters say about the padding blanks
+        pad = fmt == "fixed" and cell.strip(" ") == "" or cell == ""
+        if bad and not pad: exp = "reject"; exp_calls = []          # (also a cell of white space that str.strip() would empty: a disallowed tab stays disallowed)
+        elif blank:         # the statement decides the empty cell first: accepted iff allowed to be empty, whatever the allowed characters say about the padding blanks
             if fmt == "fixed" and len(cell) > 3: return None      # outside fixed-width data (longer than the width): not constrained by the statement
             exp = "accept" if empty else "reject"; exp_calls = []
-        elif bad: exp = "reject"; exp_calls = []
         elif not len_ok: exp = "reject"; exp_calls = []
         else: exp = "accept" if rule_ok(eff) else "reject"; exp_calls = [eff]
         if obs != exp: return {"expected": exp, "observed": obs}
@@ -182,7 +194,7 @@ def unit_validated():
         out = []
         for fixed in (False, True):
             c = validated_contract(fixed)
-            sf = {"strip_of": sf_strip_of, "all_space": sf_all_space, "bad_char": sf_bad_char, "length_ok": c._length_ok, "vv_accepts": sf_vv_accepts, "vv_native": sf_vv_native, "EMPTY": sf_EMPTY}
+            sf = {"strip_of": sf_strip_of, "all_space": sf_all_space, "only_spaces": sf_only_spaces, "bad_char": sf_bad_char, "length_ok": c._length_ok, "vv_accepts": sf_vv_accepts, "vv_native": sf_vv_native, "EMPTY": sf_EMPTY}
             out.append({"contract": c, "callees": validated_callees(), "spec_functions": sf, "label": "fixed" if fixed else "delimited/excel/ods",
                         "assumptions": ["validated_value is abstract (uninterpreted verdict vv_accepts and native value vv_native; raises only FieldValueError): covers all 8 built-in types and plug-ins at once",
                                         "A-STR: str.strip is uninterpreted with the audited axiom `strip(v) == '' iff all characters are whitespace` and `len(strip(v)) <= len(v)`",
